@@ -83,6 +83,8 @@ func RunOnce(t *testing.T, w *World, tape *Tape, trace bool, known []KnownFindin
 	// the order in which the code under test walks its replicated maps is part of the run: a
 	// function of the run's seed (tools/autoyield routes those walks through verifauto.Keys)
 	verifauto.OrderSeed = tape.Seed | 1
+	// a buffer given back to a pool is overwritten at once (tools/autoyield: verifauto.Poison)
+	verifauto.PoisonOn = os.Getenv("VERIF_NOPOISON") == ""
 	// crypto/rand is a source of choice too (key salts, nonces): for the length of the run its Reader
 	// is a stream derived from the run's seed, so two runs of one seed draw the same "random" bytes
 	defer func(old io.Reader) { crand.Reader = old }(crand.Reader)
